@@ -77,7 +77,9 @@ class RegionSystem(object):
             pd = tuple(sorted((lvl, idrepr(p)) for lvl, s in r.pixeldict.items() for p in s))
             dm = tuple(sorted(idrepr(p) for p in r.demoted))
             alias = r.demoted is r.pixeldict.get(r.maxdepth)
-            key.append((name, r.maxdepth, pd, dm, alias, tuple(sorted(r.pixeldict))))
+            # the model set is part of the key: two histories that reach the same implementation state with
+            # DIFFERENT models (only possible when the implementation is wrong) must both be checked
+            key.append((name, r.maxdepth, pd, dm, alias, tuple(sorted(r.pixeldict)), tuple(sorted(state.model[name]))))
         return tuple(key)
 
     # ---- transitions ---------------------------------------------------------
